@@ -4,5 +4,5 @@
    Proofs_misc (sqrt enclosure, symmetry in the variables, generic form), Proofs_cov (covariance), Proofs_bysample (by-sample algorithm), Proofs_sym (permutation, symmetric
    estimators), Proofs_outcov (reported covariance), Proofs_real (lag class over the real square root), Proofs_ext (irregular lags, grid indices, conservation,
    cloud), Proofs_grid (variogram map), Proofs_grideq / Proofs_grideqcov (grid algorithm = general algorithm, variogram / covariance),
-   Proofs_gen (generalised variograms). *)
-From Gst Require Export C12.Proofs_enum C12.Proofs_lag C12.Proofs_acc C12.Proofs_geom C12.Proofs_vg C12.Proofs_main C12.Proofs_out C12.Proofs_misc C12.Proofs_cov C12.Proofs_bysample C12.Proofs_sym C12.Proofs_outcov C12.Proofs_real C12.Proofs_ext C12.Proofs_grid C12.Proofs_grideq C12.Proofs_grideqcov C12.Proofs_gen.
+   Proofs_gen (generalised variograms), Proofs_fft (index logic of the FFT variogram map). *)
+From Gst Require Export C12.Proofs_enum C12.Proofs_lag C12.Proofs_acc C12.Proofs_geom C12.Proofs_vg C12.Proofs_main C12.Proofs_out C12.Proofs_misc C12.Proofs_cov C12.Proofs_bysample C12.Proofs_sym C12.Proofs_outcov C12.Proofs_real C12.Proofs_ext C12.Proofs_grid C12.Proofs_grideq C12.Proofs_grideqcov C12.Proofs_gen C12.Proofs_fft.
